@@ -144,6 +144,22 @@ def db_for(case):
     return db, None
 
 
+def _config_variants(scheme, cfg):
+    """other configurations of the same scheme: paired fields swapped (same totals, another split), and the default one"""
+    out = []
+    v = copy.deepcopy(cfg)
+    swapped = False
+    for a, b in (("param_l", "param_l_prime"), ("param_k", "param_k_prime"), ("param_B", "param_b"), ("param_B_prime", "param_b_prime"),
+                 ("param_lambda", "param_k")):
+        if a in v and b in v and v[a] != v[b]:
+            v[a], v[b] = v[b], v[a]
+            swapped = True
+    out.append(S.default_config(scheme))
+    if swapped:
+        out.append(v)   # last: whatever the newest configuration object leaves behind is this split
+    return out
+
+
 def run_case(case, res=None):
     scheme = case["scheme"]
     cfg = copy.deepcopy(case["cfg"])
@@ -181,7 +197,20 @@ def run_case(case, res=None):
                     tokens.append((w, tk))
                     stage = "Search"
                     results.append((w, sch.Search(edb, tk).get_result_list()))
-                # "every search on the resulting index": the same tokens once more, in reverse order
+                # "every search on the resulting index": the same tokens once more, in reverse order -- after other configuration
+                # objects of the same scheme came into being (same lengths split differently, the default configuration) and after the
+                # caller went on editing the dictionary it had passed in
+                stage = "other configuration objects"
+                cfg_as_given = copy.deepcopy(cfg)
+                for other in _config_variants(scheme, cfg):
+                    try:
+                        loader.SSEConfig(copy.deepcopy(other))
+                        loader.SSEScheme(other)
+                    except Exception:
+                        pass
+                for k_ in list(cfg):
+                    if isinstance(cfg[k_], int) and not isinstance(cfg[k_], bool):
+                        cfg[k_] = cfg[k_] + 1 if cfg[k_] % 2 else max(1, cfg[k_] // 2)
                 stage = "Search(again)"
                 for w, tk in reversed(tokens):
                     results.append((w, sch.Search(edb, tk).get_result_list()))
@@ -218,7 +247,7 @@ def run_case(case, res=None):
         # the stored index searched by another interpreter (own hash seed, own module state), as a server would
         from vlib import fresh
         try:
-            json_cfg = __import__("json").loads(__import__("json").dumps(cfg))
+            json_cfg = __import__("json").loads(__import__("json").dumps(cfg_as_given))
         except (TypeError, ValueError):
             json_cfg = None
         if json_cfg is not None:
